@@ -43,7 +43,7 @@ Print Assumptions C13_serialise_octets_ascii.
 (* ====================================================================== *)
 From RV Require Import Wire.WireTypes Zone.ZoneModel Zone.ZoneFlat Zone.ZoneProofs ZoneFile.ZfInstance
      ZoneFile.ZoneRtLines ZoneFile.ZoneRtLoop ZoneFile.ZoneRoundTrip ZoneFile.ZoneRtOrder ZoneFile.ZoneRtLoaded
-     ZoneFile.ZoneRtCodec ZoneFile.ZoneRtFinal.
+     ZoneFile.ZoneRtCodec ZoneFile.ZoneRtFinal ZoneFile.ZoneRtText.
 
 (* relative_name_roundtrip.  [name_ok]: well formed, labels ASCII and dot-free (D7).  What
    serialise_domain writes for a name -- relative to the apex, "@" for the apex itself, or the
@@ -162,13 +162,45 @@ Example C13_built_ex2 : exists z txt z', zone_build root_domain None Examples.op
   zf_serialise z = Ok txt /\ zf_deserialise txt = Ok z' /\ zone_same z z'.
 Proof. exact Examples.roundtrip2. Qed.
 
-(* NOT proved -- kept as a statement:
-   Theorem C13_normalise_idempotent_text_partial : forall z txt z',
-     built z -> zf_serialise z = Ok txt -> zf_deserialise txt = Ok z' -> zf_serialise z' = Ok txt.
-   (for the model's OWN record order the second-pass text is literally the first-pass text).
-   Missing: that the association lists standing for the HashMaps of z' hold the type groups of a
-   name in the order z's do -- the abstraction relation R speaks about each type group separately.
-   Proved instead: C13_normalise_idempotent (the same ORDER PARAMETER gives the same text; every
-   order admissible for z' gives the same zone) and C13_ztoz_twice_zf.  The correspondence stream
-   checks the literal equality on every case (the second 'true' of 'true,true') and runs the real
-   ztoz binary twice. *)
+(* normalise_idempotent, literally ("normalising twice changes nothing more"), for Zone::serialise
+   as the MODEL runs it -- the model's own record order: names sorted by the derived Ord, under a
+   name the type groups in the insertion order of the association list standing for the
+   HashMap<RecordType, Vec<..>>, inside a group Vec order.  The zone z' read back from the text of
+   z is built by inserting the records in text order, so its type groups come in the order in
+   which the first pass listed them (ZoneRtText.same_flat); the names are sorted, and the derived
+   Ord is a total order (ZoneRtText.sort_names_unique): the second-pass text is the first-pass text.
+   This exact statement is TRUE of the model (its order is deterministic); for the
+   implementation, whose HashMap iteration order is arbitrary, the statement that carries over is
+   C13_normalise_idempotent above (every admissible order gives the same zone, the same order
+   parameter the same text) -- the correspondence stream compares the implementation's texts after a
+   stable sort of the lines of each name block by (owner field, type field) for that reason. *)
+Theorem C13_normalise_idempotent_text : forall ip, codec_rt ip -> forall z txt z',
+  built z -> zone_serialise ip z = Ok txt -> deserialise ip txt = Ok z' -> zone_serialise ip z' = Ok txt.
+Proof. exact own_text_idempotent. Qed.
+Print Assumptions C13_normalise_idempotent_text.
+
+(* the same for every zone the parser returns, and with the codec the model is run with (no
+   hypothesis left): ztoz applied to its own output reproduces it octet for octet *)
+Theorem C13_normalise_idempotent_text_loaded : forall ip, codec_rt ip -> codec_range ip -> forall data z txt z',
+  deserialise ip data = Ok z -> zone_serialise ip z = Ok txt -> deserialise ip txt = Ok z' -> zone_serialise ip z' = Ok txt.
+Proof. exact loaded_text_idempotent. Qed.
+Print Assumptions C13_normalise_idempotent_text_loaded.
+
+Theorem C13_normalise_idempotent_text_zf : forall z txt z',
+  built z -> zf_serialise z = Ok txt -> zf_deserialise txt = Ok z' -> zf_serialise z' = Ok txt.
+Proof. exact zf_text_idempotent. Qed.
+Print Assumptions C13_normalise_idempotent_text_zf.
+
+Theorem C13_ztoz_text_fixpoint_zf : forall data z txt z',
+  zf_deserialise data = Ok z -> zf_serialise z = Ok txt -> zf_deserialise txt = Ok z' -> zf_serialise z' = Ok txt.
+Proof. exact zf_loaded_text_idempotent. Qed.
+Print Assumptions C13_ztoz_text_fixpoint_zf.
+
+(* the hypotheses are satisfiable and the conclusion is about a non-trivial text: the zone of
+   C13_built_ex1 (SOA, NS and a wildcard TXT at the apex, four more owners; text: Examples.text1) *)
+Example C13_text_idempotent_ex1 : exists z txt z', zone_build Examples.apex1 (Some Examples.so1) Examples.ops1 = Ok z /\
+  zf_serialise z = Ok txt /\ zf_deserialise txt = Ok z' /\ zf_serialise z' = Ok txt.
+Proof.
+  destruct Examples.built1 as (z & E & Hb). destruct (zf_zone_roundtrip z Hb) as (txt & z' & S & D & _).
+  exists z, txt, z'. split; [exact E|]. split; [exact S|]. split; [exact D|]. exact (zf_text_idempotent z txt z' Hb S D).
+Qed.
